@@ -18,7 +18,7 @@ def T(tier, q, t):
 
 def run(tier, seed, t0, prefix="c06.", pid=ID, manifest_rule=None):
     m = Merged(); wd = R.workdir(pid)
-    n = T(tier, 150, 6000)
+    n = T(tier, 150, 30000)
     for cfg in ("c1d0", "c0d0", "c2d0"):
         R.run_inv(Inv("contact", n, "plain", cfg, args=["--mode=tissue"], threads=1, timeout=T(tier, 1800, 6 * 3600), tag="tissue/%s/t1" % cfg), seed, wd, m)
         R.run_inv(Inv("contact", n // 3, "plain", cfg, args=["--mode=tissue"], threads=4, first=n, timeout=T(tier, 1800, 6 * 3600), tag="tissue/%s/t4" % cfg), seed, wd, m)
